@@ -10,6 +10,7 @@ import dataclasses
 import datetime
 import enum
 import json
+import os
 import re
 import tempfile
 import typing
@@ -1364,6 +1365,19 @@ class C16(core.PropertyCheck):
             yield {"kind": "toml", "text": text, "tag": "random-valid", "via": rng.choice(["open", "project"]), "must_reject": False}
             for t, tag in text_damage(text, rng, 2):
                 yield {"kind": "toml", "text": t, "tag": tag, "via": "open", "must_reject": False}
+        # snooty.toml as the file system may hold it: bytes that are not UTF-8, a number too long for the interpreter's integer
+        # conversion, brackets nested beyond the recursion limit, a directory or a dangling link under that name
+        if tier != "search":
+            raws = [("not-utf8", b'name = "\xff"\n'), ("not-utf8-tail", b'name = "x"\ntitle = "\xc3"\n'), ("bom-utf16", 'name = "x"\n'.encode("utf-16")),
+                    ("nul", b'name = "x"\x00\n'), ("huge-int", b'name = "x"\n[constants]\na = ' + b"9" * 5000 + b"\n"),
+                    ("deep-array", b'name = "x"\n[data]\na = ' + b"[" * 3000 + b"]" * 3000 + b"\n"), ("deep-table", b'name = "x"\n[data]\na = ' + b"{b = " * 1500 + b"1" + b"}" * 1500 + b"\n"),
+                    ("empty", b""), ("only-cr", b"\r\r\r")]
+            for tag, raw in raws:
+                for via in ("open", "project"):
+                    yield {"kind": "tomlraw", "tag": tag, "hex": raw.hex(), "via": via}
+            for shape in ("dir", "dangling", "selflink"):
+                for via in ("open", "project"):
+                    yield {"kind": "tomlraw", "tag": shape, "shape": shape, "via": via}
         # 3b. facets.toml: the other configuration file of a project (read by the postprocessor through
         #     ProjectConfig.load_facets_from_file): well-formed documents, every malformed shape, and text damage
         from impl import c02disk
@@ -1447,10 +1461,19 @@ class C16(core.PropertyCheck):
                 shape = isinstance(facets, list) and all(isinstance(f, stypes.Facet) and isinstance(f.category, str) and isinstance(f.value, str) for f in facets)
                 return {"out": "ok", "n": len(facets) if isinstance(facets, list) else -1, "shape": shape,
                         "diags": [[type(x).__name__, 0, x.message[:120]] for x in diags]}
-        if kind == "toml":
+        if kind in ("toml", "tomlraw"):
             with tempfile.TemporaryDirectory(prefix="c16-") as d:
                 root = Path(d).resolve()
-                root.joinpath("snooty.toml").write_text(case["text"], encoding="utf-8")
+                if kind == "toml":
+                    root.joinpath("snooty.toml").write_text(case["text"], encoding="utf-8")
+                elif case.get("shape") == "dir":
+                    root.joinpath("snooty.toml").mkdir()
+                elif case.get("shape") == "dangling":
+                    os.symlink("nowhere.toml", root / "snooty.toml")
+                elif case.get("shape") == "selflink":
+                    os.symlink("snooty.toml", root / "snooty.toml")
+                else:
+                    root.joinpath("snooty.toml").write_bytes(bytes.fromhex(case["hex"]))
                 if case["via"] == "open":
                     try:
                         cfg, diags = stypes.ProjectConfig.open(root)
@@ -1648,6 +1671,10 @@ class C16(core.PropertyCheck):
             if case["tag"] in ("not-toml", "no-facets-key", "facets-not-a-list", "entry-missing-value", "sub-facets-not-a-list", "not-utf8") and not impl["diags"]:
                 return f"malformed facets.toml ({case['tag']}) accepted without a diagnostic"
             return None
+        if kind == "tomlraw":
+            if impl["out"] == "other":
+                return f"opening the project raised {impl['exc']} at stage {impl.get('stage', 'config')} ({impl['msg']}) instead of reporting a configuration diagnostic [snooty.toml: {case['tag']}]"
+            return None
         if kind == "toml":
             if impl["out"] == "other":
                 return f"opening the project raised {impl['exc']} at stage {impl.get('stage', 'config')} ({impl['msg']}) instead of reporting a configuration diagnostic"
@@ -1762,6 +1789,8 @@ class C16(core.PropertyCheck):
             tags.append("toml:" + case["tag"].split(":")[0] + ":" + case["via"])
         elif case["kind"] == "facets":
             tags.append("facets:" + case["tag"].split(":")[0] + (":diagnosed" if impl.get("diags") else ":silent"))
+        elif case["kind"] == "tomlraw":
+            tags.append("tomlraw:" + case["tag"] + ":" + case["via"])
         else:
             tags.append("spec:" + case["category"])
         return tags
